@@ -41,6 +41,13 @@ type psSub struct {
 	release chan struct{}
 	stable  bool
 	acks    atomic.Int64
+	gmu     sync.Mutex // guards got (the harness's own log; read while the receiver may still run)
+}
+
+func (s *psSub) snapshot() []int {
+	s.gmu.Lock()
+	defer s.gmu.Unlock()
+	return append([]int(nil), s.got...)
 }
 
 type psRun struct {
@@ -64,7 +71,9 @@ func (p *psRun) startReceiver(s *psSub, seed uint64) {
 			<-s.release
 		}
 		for v := range s.ch {
+			s.gmu.Lock()
 			s.got = append(s.got, v)
+			s.gmu.Unlock()
 			s.acks.Add(1)
 			p.acks.Add(1)
 			if s.behav == 1 && rr.Chance(1, 3) {
@@ -130,6 +139,8 @@ func runC10(c *core.Ctx) {
 		c10churn(c, "sync")
 	case "churn-async":
 		c10churn(c, "async")
+	case "churn-sub":
+		c10churn(c, "subonly")
 	case "churn-withonly":
 		c10withonly(c, true)
 	}
@@ -398,8 +409,14 @@ func c10stable(c *core.Ctx) {
 // kind "async": Pub/PubSlice/PubWait/PubSliceWait.
 func c10churn(c *core.Ctx, kind string) {
 	r := c.R
+	g0 := runtime.NumGoroutine()
 	variant := 4 + r.Intn(2)
 	if kind == "async" {
+		variant = r.Intn(4)
+	}
+	if kind == "subonly" {
+		// subscriptions only COME (Sub/SubBuf) while Pub/PubSlice/PubWait/PubSliceWait run:
+		// nothing is closed under a publisher, so the known finding cannot occur here
 		variant = r.Intn(4)
 	}
 	vname := psVariants[variant]
@@ -423,7 +440,7 @@ func c10churn(c *core.Ctx, kind string) {
 		run.startReceiver(s, r.Uint64())
 		add(s)
 	}
-	useUnsubAll := r.Chance(1, 5)
+	useUnsubAll := r.Chance(1, 5) && kind != "subonly"
 	npub, per := r.Range(1, 3), r.Range(2, 10)
 	nchurn := r.Range(1, 3)
 	var wg sync.WaitGroup
@@ -451,6 +468,9 @@ func c10churn(c *core.Ctx, kind string) {
 				run.startReceiver(s, rr.Uint64())
 				add(s)
 				time.Sleep(time.Duration(rr.Range(0, 300)) * time.Microsecond)
+				if kind == "subonly" {
+					continue
+				}
 				// a third party unsubscribes the channel while its receiver keeps receiving
 				if err := run.ps.Unsub(s.ch); err != nil {
 					if !(useUnsubAll && err == chans.ErrAlreadyUnsubscribed) {
@@ -532,6 +552,69 @@ func c10churn(c *core.Ctx, kind string) {
 		}
 	} else if isAsync(variant) {
 		time.Sleep(2 * time.Millisecond)
+	}
+	if kind == "subonly" {
+		// Closing channels while async send goroutines are still in flight is the KNOWN
+		// finding; here everything must be quiet first. All goroutines except the
+		// receivers (one per subscription, all still running) and the harness's own are
+		// library senders: wait until they are gone (each delivers or times out).
+		if !waitUntil(func() bool { return runtime.NumGoroutine() <= g0+len(subs) }, 30*time.Second) {
+			c.Inconclusive("send goroutines did not finish within the watchdog (sub-only churn)")
+			return
+		}
+		if isAsync(variant) {
+			// Quiescence was established by POLLING: there is no happens-before edge from
+			// the finished senders to this goroutine, so closing the channels now would be
+			// reported by the race detector as racing with their last sends - an alarm
+			// manufactured by the harness. The channels are therefore left open (the
+			// receivers stay parked; the worker process is short-lived) and the logs are
+			// read up to each receiver's own atomic acknowledgement count.
+			c.Count(c.Mode+"_scenarios", 1)
+			c.Count(c.Mode+"_"+vname, 1)
+			// acknowledged quiescence for the subscribers whose share is known
+			if !timeoutOn {
+				if !waitUntil(func() bool {
+					for _, s := range subs {
+						if s.stable && s.acks.Load() < int64(npub*per) {
+							return false
+						}
+					}
+					return true
+				}, 30*time.Second) {
+					empty := true
+					for _, s := range subs {
+						if len(s.ch) > 0 {
+							empty = false
+						}
+					}
+					if empty && runtime.NumGoroutine() <= g0+len(subs) {
+						c.Violate(vname+":stable-subscriber-missed-events", "every send goroutine has finished and all channels are empty, but a subscriber that stayed subscribed throughout has not received every event", map[string]any{"variant": vname})
+					} else {
+						c.Inconclusive("stable subscribers did not acknowledge everything within the watchdog (sub-only churn)")
+					}
+					return
+				}
+			}
+			for si, s := range subs {
+				got := s.snapshot()
+				n := len(got)
+				seen := map[int]bool{}
+				for _, v := range got {
+					if v/1000 < 1 || v/1000 > npub || v%1000 >= per || seen[v] {
+						c.Violate(vname+":duplicate-or-invented", fmt.Sprintf("subscription %d received %v", si, got), map[string]any{"variant": vname})
+						return
+					}
+					seen[v] = true
+				}
+				if s.stable && !timeoutOn && n != npub*per {
+					c.Violate(vname+":stable-subscriber-missed-events", fmt.Sprintf("a subscriber that stayed subscribed throughout received %d of %d events while other subscriptions were being added", n, npub*per), map[string]any{"variant": vname})
+					return
+				}
+				c.Count(c.Mode+"_deliveries", int64(n))
+			}
+			c.NonTrivial(core.Mix(c.Seed, uint64(variant)))
+			return
+		}
 	}
 	run.ps.UnsubAll()
 	for _, s := range subs {
